@@ -223,7 +223,7 @@ def check_interleaving(case, ctx):
     for job in jobs:
         fresh = mk_model(cfg)
         try:
-            steps, res = count_steps(lambda fresh=fresh, job=job: run_job(fresh, job))
+            steps, res = count_steps(lambda fresh=fresh, job=job: run_job(fresh, job), opcodes=bool(case.get("opcodes")))
         except HarnessError:
             raise
         except Exception as e:  # noqa: BLE001
@@ -236,7 +236,7 @@ def check_interleaving(case, ctx):
     objs = [mk_teams(shared, job["teams"]) for job in jobs]
     thunks = [lambda job=job, o=o: run_job(shared, job, o) for job, o in zip(jobs, objs)]
     points = sorted((1 + int(fr * total), th) for fr, th in pre)
-    s = Scheduler(thunks, points)
+    s = Scheduler(thunks, points, opcodes=bool(case.get("opcodes")), watch=shared, on_write=case.get("on_write") or ())
     results, errors = s.run()
     ctx.called(2 * len(jobs))
     for i, (r, e, x) in enumerate(zip(results, errors, expected)):
@@ -247,7 +247,8 @@ def check_interleaving(case, ctx):
                             f"{cfg['kind']} job {i} {jobs[i]['op']}({jobs[i].get('call', {})}) under schedule {s.trace} (of {total} steps): {r!r} != sequential {x!r}"[:1200])
     if snapshot(shared) != before:
         raise Violation("attr-changed-under-interleaving", f"{cfg['kind']} model attributes changed")
-    ctx.label(f"jobs:{len(jobs)}", f"switches:{min(s.switches, 6)}")
+    ctx.label(f"jobs:{len(jobs)}", f"switches:{min(s.switches, 6)}", "granularity:" + ("bytecode" if case.get("opcodes") else "line"),
+              f"shared-writes-seen:{min(s.writes, 3)}")
     ctx.nontrivial_if(s.switches >= 1)
 
 
@@ -262,7 +263,8 @@ def interleaving_cases(draw):
         jobs[0] = dict(j, op="rate", call=dict(j.get("call", {}), limit_sigma=draw(st.sampled_from([True, False])),
                                                tau=draw(st.sampled_from([0.0, cfg["beta"], cfg["beta"] / 7.0]))))
     pre = draw(st.lists(st.tuples(st.floats(0.0, 1.0), st.integers(0, k - 1)).map(list), min_size=draw(st.sampled_from([0, 1, 1, 2])), max_size=6))
-    return {"cfg": cfg, "jobs": jobs, "preemptions": pre}
+    on_write = draw(st.lists(st.one_of(st.none(), st.integers(0, k - 1)), min_size=0, max_size=4))
+    return {"cfg": cfg, "jobs": jobs, "preemptions": pre, "opcodes": draw(st.integers(0, 3)) == 0, "on_write": on_write}
 
 
 # ------------------------------------------------------------------------------------------------
@@ -416,8 +418,8 @@ PROPERTY = Property(
         Clause(name="identity-independence", strategy=identity_cases(), check=check_identity, quick=1500, thorough=30000,
                rule="same values under different names / ids / object identities / construction paths / previously seen ids; non-trivial = rate or >= 3 teams"),
         Clause(name="scheduled-interleavings", strategy=interleaving_cases(), check=check_interleaving, quick=3000, thorough=100000,
-               rule="2-4 jobs on one shared model, each in its own thread, interleaved at source-line granularity by a generated schedule of <= 6 "
-                    "preemption points (sys.settrace + semaphores: one runnable thread at a time); every job's result bit-identical to its solo run; "
+               rule="2-4 jobs on one shared model, each in its own thread, interleaved at source-line granularity (a quarter of the cases: at BYTECODE granularity) by a generated schedule "
+                    "of <= 6 preemption points (sys.settrace + semaphores: one runnable thread at a time); every job's result bit-identical to its solo run; "
                     "non-trivial = at least one preemption took place while the preempted job was inside openskill code"),
         Clause(name="hash-seed-and-call-order", kind="custom", custom=hashseed_custom, check=check_hashcase, quick=400, thorough=4000, shards_quick=4, shards_thorough=16,
                rule="generated calls (some duplicated under a model with another beta) serialised and executed in five fresh child interpreters, each with its own "
@@ -428,7 +430,7 @@ PROPERTY = Property(
     rule="generated call sequences / job sets / schedules on a shared model, each compared bit for bit with the same call on a fresh model; "
          "non-trivial per clause (per-call options used; option change between consecutive steps; >= 1 real preemption); distinct by SHA-1",
     assumptions=[
-        "interleavings are controlled at source-line granularity (not bytecode) with <= 6 preemptions and <= 4 threads",
+        "interleavings are controlled at source-line granularity (a quarter of the cases at bytecode granularity) with <= 6 preemptions and <= 4 threads",
         "valid calls only use each rating object in one slot (a rating object shared by two slots of one game is not generated)",
         "the free-running-threads clause is sampled, OS-scheduled and therefore only ever additional",
     ],
